@@ -731,7 +731,7 @@ package state
 //@ ensures[only-this-node-removed] forall k string :: T_nodes(k) == old(T_nodes(k)) || (T_nodes(k) == nil && old(T_nodes(k)) == old(nodeAt(nodeName, peerName)))
 //@ ensures[only-its-services-removed] forall k string :: T_services(k) == old(T_services(k)) || (T_services(k) == nil && old(serviceOfNode(T_services(k), nodeName, peerName)))
 //@ ensures[no-session-created] forall id string :: old(T_sessions(id)) == nil ==> T_sessions(id) == nil
-//@ modifies T.nodes, T.services, T.checks, T.coordinates, T.index, T.sessions, T.kvs, T.tombstones, T.session_checks, T.prepared-queries, map:s.lockDelay.delay
+//@ modifies T.nodes, T.services, T.checks, T.coordinates, T.index, T.sessions, T.kvs, T.tombstones, T.session_checks, T.prepared-queries, map:s.lockDelay.delay, T.gateway-services, T.service-virtual-ips, T.free-virtual-ips
 //@ loop 1 invariant[pos] 0 <= itPos(services) && itPos(services) <= itLen(services)
 //@ loop 1 invariant[cursor] (service != nil ==> itPos(services) >= 1 && service == itElem(services, itPos(services)-1)) && (service == nil ==> itPos(services) == itLen(services))
 //@ loop 1 invariant[collected] len(deleteServices) == ite(service != nil, itPos(services) - 1, itPos(services)) && forall j int :: 0 <= j && j < len(deleteServices) ==> deleteServices[j] == itElem(services, j).(*structs.ServiceNode)
@@ -761,10 +761,40 @@ package state
 //@ trusted
 //@ results err
 //@ modifies T.index
+// ---- C07: freeing a service's virtual IP (derived view service-virtual-ips / free-virtual-ips), VERIFIED.
+// Taken from the property ("a virtual IP advertised by any catalog instance equals its service's current
+// assignment"): the assignment is kept while anything can still advertise it - a remaining instance of the service,
+// a config entry of one of the five kinds that carry a virtual IP, or a terminating gateway (other than the one
+// being edited) that still links the service; otherwise the assignment row is removed and its IP filed as free.
+//@ pure metaOn(key string) bool = T_system_metadata(key) != nil && T_system_metadata(key).Value != ""
+//@ pure vipKeptBy(g *structs.GatewayService, name string, excl *structs.ServiceName) bool = g != nil && strLower(g.Service.Name) == strLower(name) && g.GatewayKind == structs.ServiceKindTerminatingGateway && (excl == nil || g.Gateway.Name != excl.Name)
+//@ pure hasVIPConfigEntry(name string) bool = T_config_entries(configentry.KindName{Kind: structs.ServiceResolver, Name: name}) != nil || T_config_entries(configentry.KindName{Kind: structs.ServiceRouter, Name: name}) != nil || T_config_entries(configentry.KindName{Kind: structs.ServiceSplitter, Name: name}) != nil || T_config_entries(configentry.KindName{Kind: structs.ServiceDefaults, Name: name}) != nil || T_config_entries(configentry.KindName{Kind: structs.ServiceIntentions, Name: name}) != nil
+//@ func virtualIPsSupported
+//@ props C07
+//@ results ok, err
+//@ ensures[spec] err == nil ==> (ok <==> metaOn(structs.SystemMetadataVirtualIPsEnabled))
+//@ modifies nothing
+//@ func terminatingGatewayVirtualIPsSupported
+//@ props C07
+//@ results ok, err
+//@ ensures[spec] err == nil ==> (ok <==> metaOn(structs.SystemMetadataTermGatewayVirtualIPsEnabled))
+//@ modifies nothing
 //@ func freeServiceVirtualIP
-//@ trusted
+//@ props C07
 //@ results err
-//@ modifies T.index
+//@ ensures[kept-while-an-instance-remains] (exists k string :: T_services(k) != nil && strLower(T_services(k).PeerName) == strLower(psn.Peer) && strLower(T_services(k).ServiceName) == strLower(psn.ServiceName.Name)) ==> err != nil || vipTablesUntouched()
+//@ ensures[kept-while-a-config-entry-names-it] hasVIPConfigEntry(psn.ServiceName.Name) ==> err != nil || vipTablesUntouched()
+//@ ensures[kept-while-a-terminating-gateway-links-it] metaOn(structs.SystemMetadataTermGatewayVirtualIPsEnabled) && (exists k string :: vipKeptBy(T_gateway_services(k), psn.ServiceName.Name, excludeGateway)) ==> err != nil || vipTablesUntouched()
+//@ ensures[unsupported-noop] !metaOn(structs.SystemMetadataVirtualIPsEnabled) ==> err != nil || vipTablesUntouched()
+//@ ensures[freed-otherwise] err == nil && old(T_service_virtual_ips(psn)) != nil && metaOn(structs.SystemMetadataVirtualIPsEnabled) && !(exists k string :: T_services(k) != nil && strLower(T_services(k).PeerName) == strLower(psn.Peer) && strLower(T_services(k).ServiceName) == strLower(psn.ServiceName.Name)) && !hasVIPConfigEntry(psn.ServiceName.Name) && !(metaOn(structs.SystemMetadataTermGatewayVirtualIPsEnabled) && (exists k string :: vipKeptBy(T_gateway_services(k), psn.ServiceName.Name, excludeGateway))) ==>
+//@      T_service_virtual_ips(psn) == nil && T_free_virtual_ips(FreeVirtualIP{IsCounter: false}) != nil && eq(T_free_virtual_ips(FreeVirtualIP{IsCounter: false}).(FreeVirtualIP).IP, old(T_service_virtual_ips(psn)).(ServiceVirtualIP).IP)
+//@ ensures[only-this-assignment-removed] forall k string :: T_service_virtual_ips(k) == old(T_service_virtual_ips(k)) || (T_service_virtual_ips(k) == nil && old(T_service_virtual_ips(k)) == old(T_service_virtual_ips(psn)))
+//@ ensures[counter-untouched] T_free_virtual_ips(FreeVirtualIP{IsCounter: true}) == old(T_free_virtual_ips(FreeVirtualIP{IsCounter: true}))
+//@ modifies T.service-virtual-ips, T.free-virtual-ips, T.index
+//@ loop 2 invariant[pos] 0 <= itPos(svcGateways) && itPos(svcGateways) <= itLen(svcGateways)
+//@ loop 2 invariant[cursor] (service != nil ==> itPos(svcGateways) >= 1 && service == itElem(svcGateways, itPos(svcGateways)-1)) && (service == nil ==> itPos(svcGateways) == itLen(svcGateways))
+//@ loop 2 invariant[none-so-far] forall j int :: 0 <= j && j < ite(service != nil, itPos(svcGateways) - 1, itPos(svcGateways)) ==> !vipKeptBy(itElem(svcGateways, j).(*structs.GatewayService), psn.ServiceName.Name, excludeGateway)
+//@ pure vipTablesUntouched() bool = (forall k string :: T_service_virtual_ips(k) == old(T_service_virtual_ips(k))) && (forall k string :: T_free_virtual_ips(k) == old(T_free_virtual_ips(k)))
 //@ func cleanupKindServiceName
 //@ trusted
 //@ results err
@@ -776,7 +806,7 @@ package state
 //@ func cleanupGatewayWildcards
 //@ trusted
 //@ results err
-//@ modifies T.index
+//@ modifies T.index, T.gateway-services
 //@ func catalogServiceMaxIndex
 //@ trusted
 //@ results ch, entry, err
@@ -796,7 +826,7 @@ package state
 //@ ensures[nodes-untouched] forall k string :: T_nodes(k) == old(T_nodes(k))
 //@ ensures[no-session-created] forall id string :: old(T_sessions(id)) == nil ==> T_sessions(id) == nil
 //@ ensures[sessions-only-removed] sessionsOnlyRemoved()
-//@ modifies T.services, T.checks, T.index, T.sessions, T.kvs, T.tombstones, T.session_checks, T.prepared-queries, map:s.lockDelay.delay
+//@ modifies T.services, T.checks, T.index, T.sessions, T.kvs, T.tombstones, T.session_checks, T.prepared-queries, map:s.lockDelay.delay, T.gateway-services, T.service-virtual-ips, T.free-virtual-ips
 //@ loop 1 invariant[pos] 0 <= itPos(checks) && itPos(checks) <= itLen(checks)
 //@ loop 1 invariant[cursor] (check != nil ==> itPos(checks) >= 1 && check == itElem(checks, itPos(checks)-1)) && (check == nil ==> itPos(checks) == itLen(checks))
 //@ loop 1 invariant[collected] len(deleteChecks) == ite(check != nil, itPos(checks) - 1, itPos(checks)) && forall j int :: 0 <= j && j < len(deleteChecks) ==> deleteChecks[j] == itElem(checks, j).(*structs.HealthCheck)
@@ -810,11 +840,11 @@ package state
 //@ func checkGatewayWildcardsAndUpdate
 //@ trusted
 //@ results err
-//@ modifies T.index
+//@ modifies T.index, T.gateway-services
 //@ func checkGatewayAndUpdate
 //@ trusted
 //@ results err
-//@ modifies T.index
+//@ modifies T.index, T.gateway-services
 //@ func upsertKindServiceName
 //@ trusted
 //@ results err
@@ -823,23 +853,15 @@ package state
 //@ trusted
 //@ results err
 //@ modifies T.index
-//@ func virtualIPsSupported
-//@ trusted
-//@ results ok, err
-//@ modifies nothing
-//@ func terminatingGatewayVirtualIPsSupported
-//@ trusted
-//@ results ok, err
-//@ modifies nothing
 //@ func assignServiceVirtualIP
 //@ trusted
 //@ opt record assignServiceVirtualIP
 //@ results vip, err
-//@ modifies T.index
+//@ modifies T.index, T.service-virtual-ips, T.free-virtual-ips
 //@ func getTermGatewayVirtualIPs
 //@ trusted
 //@ results addrs, err
-//@ modifies T.index
+//@ modifies T.index, T.service-virtual-ips, T.free-virtual-ips
 
 //@ func ensureServiceTxn
 //@ props C07 C06
@@ -852,7 +874,7 @@ package state
 //@ ensures[nodes-and-checks-untouched] (forall k string :: T_nodes(k) == old(T_nodes(k))) && (forall k string :: T_checks(k) == old(T_checks(k)))
 //@ ensures[advertised-virtual-ip-is-the-assigned-one] rerr == nil && svc.Kind != structs.ServiceKindTerminatingGateway && called("assignServiceVirtualIP") && !old(called("assignServiceVirtualIP")) ==> has(svc.TaggedAddresses, structs.TaggedAddressVirtualIP) && svc.TaggedAddresses[structs.TaggedAddressVirtualIP].Address == lastStr("assignServiceVirtualIP")
 //@ ensures[C06-writer-bumps-services-index] rerr == nil && serviceAt(node, svc.ID, svc.PeerName) != old(serviceAt(node, svc.ID, svc.PeerName)) ==> idxVal("services") >= serviceAt(node, svc.ID, svc.PeerName).ModifyIndex && idxVal("nodes") >= serviceAt(node, svc.ID, svc.PeerName).ModifyIndex
-//@ modifies T.services, T.index, svc.TaggedAddresses
+//@ modifies T.services, T.index, svc.TaggedAddresses, T.gateway-services, T.service-virtual-ips, T.free-virtual-ips
 
 //@ pure checkAt(node string, id string, peer string) *structs.HealthCheck = T_checks(NodeCheckQuery{Node: node, CheckID: id, PeerName: peer})
 //@ pure nodeAt(node string, peer string) *structs.Node = T_nodes(Query{Value: node, PeerName: peer})
@@ -915,11 +937,11 @@ package state
 //@ func ensureConfigEntryTxn
 //@ trusted
 //@ results rerr
-//@ modifies T.config-entries, T.index
+//@ modifies T.config-entries, T.index, T.gateway-services, T.service-virtual-ips, T.free-virtual-ips, T.services
 //@ func deleteConfigEntryTxn
 //@ trusted
 //@ results rerr
-//@ modifies T.config-entries, T.index
+//@ modifies T.config-entries, T.index, T.gateway-services, T.service-virtual-ips, T.free-virtual-ips
 
 //@ pure configAt(c structs.ConfigEntry) structs.ConfigEntry = T_config_entries(configentry.KindName{Kind: c.GetKind(), Name: c.GetName()})
 
